@@ -165,6 +165,15 @@ CLAIMS = {
             "delegated roles are enumerated recursively. Byte identity of the re-fetched metadata and a "
             "remote changing between load and cache are not decided.",
             "DESIGN.md §4 C19"),
+    "C11": ("trait-table exhaustiveness query (compiler facts incl. extern default bodies) + MIR "
+            "value-origin / dominance rules over every Formatter method of CanonicalFormatter and sort_key",
+            "Decides structurally that no Formatter method can bypass the object buffer, that every byte "
+            "goes through the current key/value buffer, that members are ordered by the un-quoted, "
+            "un-escaped key in a BTreeMap emitted in order, that floats always fail, that only the quote "
+            "and the backslash are escaped with the right byte per escape class, and that string "
+            "fragments are written only as their NFC normalisation. Value-level equality with the OLPC "
+            "form, NFC itself and integer formatting are not decided.",
+            "DESIGN.md §4 C11"),
 }
 
 NOT_YET = {}
